@@ -12,7 +12,7 @@
 (* the remainder of that execution is skipped up to the next Reset line.   *)
 (* `tags' are the ids of the listed properties the conjunct belongs to.    *)
 (***************************************************************************)
-EXTENDS Naturals, Integers, Sequences, FiniteSets, TLC, Json, IOUtils, SequencesExt, FiniteSetsExt, GF2, GF2m
+EXTENDS Naturals, Integers, Sequences, FiniteSets, TLC, Json, IOUtils, SequencesExt, FiniteSetsExt, GF2, GF2m, Pchk2D
 
 TraceLog == TLCGet(7)
 LoadLog == TLCSet(7, ndJsonDeserialize(IOEnv.TRACE))
@@ -114,7 +114,8 @@ DoSetParams(s0, ev) ==
                   THEN PeelClosure(H, Pre(s1)) ELSE {}
     IN  [ s |-> [s1 EXCEPT !.known = known0],
           fails |-> F(ev.raw = 1 \/ ev.st = OK, "C09", "params-rejected")
-                    \cup F("cw_ok" \notin DOMAIN ev \/ ev.cw_ok = 1, "INFRA", "driver-codeword")
+                    \cup F("cw_ok" \notin DOMAIN ev \/ ev.cw_ok = 1, IF ev.codec = 5 THEN "C16" ELSE "INFRA", "driver-codeword")
+                    \cup F((ev.codec = 5 /\ ev.st = OK /\ ev.raw = 0) => IsProductCode(H, ev.k, ev.r), "C16", "not-a-product-parity-code")
                     \cup cwFails
                     \cup (IF ev.st = OK THEN Common(ev) ELSE {}) ]
 
